@@ -489,7 +489,7 @@ func r045as(c *an.Ctx, rule string) {
 						return false
 					}
 					for _, in := range b.Instrs {
-						if _, isSel := in.(*ssa.Select); isSel {
+						if an.IsSendSite(in) {
 							return false
 						}
 					}
@@ -506,7 +506,7 @@ func r045as(c *an.Ctx, rule string) {
 				}
 				seen[b] = true
 				for _, in := range b.Instrs {
-					if _, isSel := in.(*ssa.Select); isSel {
+					if an.IsSendSite(in) {
 						return
 					}
 				}
